@@ -106,6 +106,7 @@ func (a addr) String() string  { return string(a) }
 type half struct {
 	mu     sync.Mutex
 	buf    []byte
+	gone   bool // the reader closed: further writes are accepted and discarded (first write after a FIN succeeds)
 	eof    bool // writer closed its side
 	reset  bool
 	notify chan struct{}
@@ -226,9 +227,9 @@ func (c *TCPConn) Write(p []byte) (int, error) {
 			h.mu.Unlock()
 			return total, opErr("write", c, os.NewSyscallError("write", syscall.ECONNRESET))
 		}
-		if h.eof {
+		if h.gone {
 			h.mu.Unlock()
-			return total, opErr("write", c, os.NewSyscallError("write", syscall.EPIPE))
+			return total + len(p), nil
 		}
 		room := h.cap - len(h.buf)
 		if room > 0 {
@@ -286,9 +287,9 @@ func (c *TCPConn) Close() error {
 	c.wr.eof = true
 	c.wr.mu.Unlock()
 	c.wr.kick()
-	// unread data + close = the peer's writes fail
+	// the peer's later writes go nowhere
 	c.rd.mu.Lock()
-	c.rd.eof = true
+	c.rd.gone = true
 	c.rd.mu.Unlock()
 	c.rd.kick()
 	return nil
